@@ -169,6 +169,8 @@ class CompiledLogicNet(torch.nn.Module):
                 raise ValueError("Flatten is only supported directly after the convolutional part.")
             if linear and not flatten:
                 raise ValueError("A Flatten layer is required between the convolutional part and LogicDense layers.")
+            if group_sums and not flatten:
+                raise ValueError("A Flatten layer is required between the convolutional part and GroupSum.")
         elif flatten and flatten != [0]:
             raise ValueError("In a dense model Flatten is only supported as the first layer.")
 
